@@ -41,7 +41,7 @@ def exhaustive():
             for tm in (0, s.start - 1):
                 for i in range(len(s.pre) + 1):
                     pre = s.pre[:i] + [(tm, 0)] + s.pre[i:]
-                    yield R.Script(s.n, s.t, s.start, s.budget, [], s.table, pre, []).encode()
+                    yield R.Script(s.n, s.t, s.start, s.budget, [], s.table, pre, [], unit=s.unit).encode()
 
 
 monitor = R.monitor_c02
